@@ -426,8 +426,10 @@ func (p *parseVisitor) VisitSaveFromAccount(c *parser2.SaveFromAccountContext) *
 		addr    *machine.Address
 		compErr *CompileError
 	)
+	// The saved value is pushed by evaluating its expression: the address
+	// returned for an arithmetic expression is only the one of its left operand.
 	if monAll := c.GetMonAll(); monAll != nil {
-		typ, addr, compErr = p.VisitExpr(monAll.GetAsset(), false)
+		typ, _, compErr = p.VisitExpr(monAll.GetAsset(), true)
 		if compErr != nil {
 			return compErr
 		}
@@ -436,7 +438,7 @@ func (p *parseVisitor) VisitSaveFromAccount(c *parser2.SaveFromAccountContext) *
 				"save monetary all from account: the first expression should be of type 'asset' instead of '%s'", typ))
 		}
 	} else if mon := c.GetMon(); mon != nil {
-		typ, addr, compErr = p.VisitExpr(mon, false)
+		typ, _, compErr = p.VisitExpr(mon, true)
 		if compErr != nil {
 			return compErr
 		}
@@ -445,7 +447,6 @@ func (p *parseVisitor) VisitSaveFromAccount(c *parser2.SaveFromAccountContext) *
 				"save monetary from account: the first expression should be of type 'monetary' instead of '%s'", typ))
 		}
 	}
-	p.PushAddress(*addr)
 
 	typ, addr, compErr = p.VisitExpr(c.GetAcc(), false)
 	if compErr != nil {
